@@ -83,8 +83,7 @@ def main(bdir, gen_dir, aux, exported_file):
     consts['cython'] = cy_consts
     consts['java'], java_dynamic = X.java_constants(repo)
     consts['idl'], idl_info = X.idl_constants(repo)
-    if idl_info['assigned_not_in_common'] or idl_info['common_never_assigned']:
-        pass                                               # reported in the json; not part of the property as stated
+    cy_bodies = X.cython_bodies(repo)
     protos = dict(fortran=X.fortran_protos(repo), pascal=X.pascal_protos(repo), cython=cy_protos)
     swig = X.swig_refs(repo, cp, cc)
     cpp = X.cpp_refs(repo, cp, cc)
@@ -155,6 +154,24 @@ def main(bdir, gen_dir, aux, exported_file):
                                             known=key in fkeys))
                 if key in fkeys and p.cname not in kn: kn.append(p.cname)
         known['proto_' + s] = kn
+    # ---- IDL: a constant is exposed to IDL procedures only through COMMON XRAYLIB ("exposed completely"): every assigned
+    #      C name must be a member, and every member must receive its value
+    for nm in idl_info['assigned_not_in_common']:
+        key = 'idl/xraylib.pro common %s' % nm
+        report['diffs'].append(dict(kind='idl-common', binding='idl', name=nm, file='idl/xraylib.pro', line=0, found='assigned, but not a member of COMMON XRAYLIB', expected='member of COMMON XRAYLIB', key=key,
+                                    what='idl: %s receives a value but is not a member of COMMON XRAYLIB, so no IDL procedure can see it' % nm, known=key in fkeys))
+    for nm in idl_info['common_never_assigned']:
+        key = 'idl/xraylib.pro common %s' % nm
+        report['diffs'].append(dict(kind='idl-common', binding='idl', name=nm, file='idl/xraylib.pro', line=0, found='member of COMMON XRAYLIB that never receives a value', expected='a name assigned in the idl/*.pro files', key=key,
+                                    what='idl: COMMON XRAYLIB publishes %s, which no file assigns (not a C name)' % nm, known=key in fkeys))
+    # ---- Cython: a wrapper published under a C function's name must call that C function
+    for name, ln, calls in cy_bodies:
+        if name in cp and calls:
+            wrong = sorted({c for c in calls if c != name and c in cp})
+            if name not in calls or wrong:
+                key = 'python/xraylib_np.pyx body %s' % name
+                report['diffs'].append(dict(kind='binding-body', binding='cython', name=name, file='python/xraylib_np.pyx', line=ln, found='calls xrl.%s' % ', xrl.'.join(sorted(set(calls))), expected='calls xrl.%s' % name, key=key,
+                                            what='python/xraylib_np.pyx:%d: the wrapper published as %s calls %s' % (ln, name, ', '.join('xrl.' + c for c in sorted(set(calls)))), known=key in fkeys))
     # ---- SWIG / C++ references ---------------------------------------------------------------------------
     for who, info, f in (('swig', swig, 'src/xraylib.i'), ('cpp', cpp, 'cplusplus/xraylib++.h')):
         for r in info['refs']:
@@ -213,6 +230,11 @@ def main(bdir, gen_dir, aux, exported_file):
         emit_table(L, tag + '_name_refs', 'Nat', sorted(set(names)), str, 'C declarations named by hand in the %s file' % tag)
         emit_table(L, tag + '_param_refs', '(Nat × Nat)', sorted(set(pairs)), lambda x: '(%d,%d)' % x, 'typemap patterns (name, type) of the %s file' % tag)
     ref_tables(swig, 'swig'); ref_tables(cpp, 'cpp')
+    # IDL COMMON block members vs assigned names; Cython wrapper (published name, called C function) pairs
+    emit_table(L, 'idl_common', 'Nat', sorted(idl_info['common_names'], key=nat_of), lambda n: str(nat_of(n)), 'members of COMMON XRAYLIB in idl/xraylib.pro (upper case)')
+    emit_table(L, 'idl_assigned', 'Nat', sorted(idl_info['assigned_names'], key=nat_of), lambda n: str(nat_of(n)), 'names assigned a value in idl/*.pro (upper case)')
+    cyb = sorted({(nat_of(name), nat_of(c)) for name, ln, calls in cy_bodies if name in cp for c in calls if c in cp})
+    emit_table(L, 'cython_calls', '(Nat × Nat)', cyb, lambda x: '(%d,%d)' % x, '(wrapper published in python/xraylib_np.pyx under a C function name, C function its body calls)')
     emit_table(L, 'declared', 'Nat', sorted(public_fns, key=nat_of), lambda n: str(nat_of(n)), 'functions declared in the public headers (%d)' % len(public_fns))
     emit_table(L, 'exported', 'Nat', sorted(exported, key=nat_of), lambda n: str(nat_of(n)), 'defined dynamic symbols of the shared library linked from the working tree (%d)' % len(exported))
     def vt(v):
